@@ -126,10 +126,10 @@ theorem isIotaDecisionOld_unsound :
            ⟨"C", "1", "1", "", true, true, 1⟩], ?_, ?_⟩ <;> decide
 
 /-- multi-name constant specs: the comment lookup of any name but the first crashes
-(kept as a theorem about the code as it is; see known findings) -/
-theorem constComment_crash_iff (c : ConstFact) :
-    (constCommentOutcome c).isCrash = true ↔ c.specIndex ≠ 0 := by
-  unfold constCommentOutcome
+(the code as it was at the pinned commit; repaired by a `fix:` commit) -/
+theorem constCommentOld_crash_iff (c : ConstFact) :
+    (constCommentOutcomeOld c).isCrash = true ↔ c.specIndex ≠ 0 := by
+  unfold constCommentOutcomeOld
   split <;> simp_all [Outcome.isCrash]
 
 /-! non-vacuity: a block with an unexported member interleaved -/
